@@ -170,6 +170,9 @@ func (s *yStore) Walk(ctx context.Context, b string, cb func(ctx context.Context
 	return s.in.Walk(ctx, b, cb)
 }
 
+// checks whose runs are sequential and fault-free on the GCS side
+var gcsRawStoreProps = map[string]bool{"C02": true, "C04": true, "C09": true, "C10": true, "C11": true, "C15": true}
+
 func NewGCSWorld(r *Run, store string, dir string, clk *Clock) *GCSWorld {
 	w := &GCSWorld{r: r, Store: store, Dir: dir, Clk: clk}
 	simClk = clk
@@ -186,7 +189,16 @@ func NewGCSWorld(r *Run, store string, dir string, clk *Clock) *GCSWorld {
 		harnessErr("unknown store %q", store)
 	}
 	w.ys = &yStore{in: st}
-	w.emu = gcsemu.NewGcsEmu(gcsemu.Options{Store: w.ys, Log: func(err error, f string, a ...interface{}) {
+	var used gcsemu.Store = w.ys
+	if r != nil && gcsRawStoreProps[r.Prop] && (r.Index/2)%2 == 1 {
+		// The wrapper (scheduling points, injected store errors) hides whatever optional
+		// interfaces the store may implement beyond gcsemu.Store. The sequential checks need
+		// neither scheduling points nor injected errors, so half of their runs hand the emulator
+		// the store itself.
+		used = st
+		r.Probe("gcs.unwrapped_store")
+	}
+	w.emu = gcsemu.NewGcsEmu(gcsemu.Options{Store: used, Log: func(err error, f string, a ...interface{}) {
 		if len(w.Logs) < 50 {
 			w.Logs = append(w.Logs, fmt.Sprintf(f, a...))
 		}
